@@ -44,7 +44,22 @@ Theorem C15_equal_content_equal : forall H t v a b, wf_ty t = true -> wf t v = t
   mk H t v = Ok a -> mk H t v = Ok b -> eq_impl H a b = true.
 Proof. intros H t v a b _ _ Ha Hb. rewrite Ha in Hb. inversion Hb; subst. apply bytes_eqb_eq. reflexivity. Qed.
 
+(* PackedIter: the stack machine over chunks with the per-chunk element counter yields exactly what
+   indexing (chunk i / per, element i mod per) yields, in order, for any per-chunk count *)
+Theorem C15_packed_iter_agrees_with_indexing : forall H src anchor d (k : N) e size bs,
+  1 <= 32 / size -> k <= 2 ^ N.of_nat d * (32 / size) ->
+  preads H src anchor d e (32 / size) 0 (N.to_nat k) = Ok bs ->
+  packed_iter H src anchor d k e size = Ok bs.
+Proof. exact packed_iter_agrees. Qed.
+
+(* BitfieldIter: bit i is bit (i mod 256) of chunk (i / 256), including the wrap of the in-chunk counter *)
+Theorem C15_bit_iter_agrees_with_indexing : forall H src anchor d (k : N) bs, k <= 2 ^ N.of_nat d * 256 ->
+  breads H src anchor d 0 (N.to_nat k) = Ok bs -> bit_iter H src anchor d k = Ok bs.
+Proof. exact bit_iter_agrees. Qed.
+
 Print Assumptions C15_index_reads_content.
+Print Assumptions C15_packed_iter_agrees_with_indexing.
+Print Assumptions C15_bit_iter_agrees_with_indexing.
 Print Assumptions C15_node_iter_agrees_with_indexing.
 Print Assumptions C15_list_reads.
 Print Assumptions C15_eq_iff_root.
